@@ -45,6 +45,7 @@ class Obs:
         self.how = None                 # 'stop' | 'return' | 'exc:<T>'
         self.t_stop = None
         self.t_flag = None
+        self.work_after_stop = 0.0
         self.finalized = 0
         self.iterations_after_release = 0
         self.steps = 0
@@ -277,6 +278,7 @@ def run_case(case: dict, guide_schedule=None) -> Obs:
     kind, mode, k = case["kind"], case["mode"], case.get("k")
     late, two, npub, seed = bool(case.get("late")), bool(case.get("two")), int(case.get("pub", 0)), int(case.get("seed", 0))
     delay = float(case.get("delay", 0))
+    policy = case.get("policy")
     obs = Obs()
     obs.n_stop = 2 if two else 1
     obs.pub = npub
@@ -328,7 +330,12 @@ def run_case(case: dict, guide_schedule=None) -> Obs:
 
         class Looper(QMI_LoopTask):
             def __init__(self, runner, name):
-                super().__init__(runner, name, loop_period=LOOP_P)
+                from qmi.core.task import QMI_LoopTaskMissedLoopPolicy as P
+                if policy:
+                    super().__init__(runner, name, loop_period=LOOP_P, policy=getattr(P, policy))
+                else:
+                    super().__init__(runner, name, loop_period=LOOP_P)
+                self.n_iter = 0
                 box.update(task=self, thread=runner._thread, qc=None)
 
             def run(self):
@@ -350,6 +357,12 @@ def run_case(case: dict, guide_schedule=None) -> Obs:
 
             def loop_iteration(self):
                 obs.events.append((0, "mark:i"))
+                self.n_iter += 1
+                if policy and self.n_iter <= 2:
+                    # a slow iteration (1.5 periods of work, not of waiting): the missed-period policy applies
+                    sched.now += 1.5 * LOOP_P
+                    if obs.t_stop is not None:
+                        obs.work_after_stop += 1.5 * LOOP_P
 
             def loop_finalize(self):
                 obs.finalized += 1
@@ -441,14 +454,14 @@ def oracle(case: dict, obs: Obs) -> Optional[str]:
     else:
         if obs.how != "stop":
             return f"released-without-stop-exception-{obs.how}"
-    if obs.released - obs.t_stop > 0 or obs.now_end - obs.t_stop > 0:
+    if obs.released - obs.t_stop - obs.work_after_stop > 0 or obs.now_end - obs.t_stop - obs.work_after_stop > 0:
         return "waited-out-timeout"             # virtual time passed between stop() and the release
     return None
 
 
 def case_sig(case: dict) -> str:
     return (f"{case['kind']}{'+late' if case.get('late') else ''}{'+2stop' if case.get('two') else ''}"
-            f"{'+delay' if case.get('delay') else ''}")
+            f"{'+delay' if case.get('delay') else ''}{'+' + case['policy'] if case.get('policy') else ''}")
 
 
 def model_lines(case: dict, obs: Obs) -> list:
@@ -509,6 +522,10 @@ class C11(Prop):
                                   ("loop", 100.0, 0), ("sleep", 60.0, 0), ("recvT", 80.0, 0)):
             for mode in ("task-first", "stop-first"):
                 vs.append(({"kind": kind, "mode": mode, "delay": delay, "seed": sd}, 1 if thorough else 2))
+        # slow loop iterations: the missed-period policies of QMI_LoopTask.run (TERMINATE = the task stops itself)
+        for pol in ("IMMEDIATE", "SKIP", "TERMINATE"):
+            for mode in ("task-first", "stop-first"):
+                vs.append(({"kind": "loop", "mode": mode, "policy": pol, "seed": 0}, 1 if thorough else 2))
         seeds = list(range(9)) if thorough else [ctx.rng.randrange(9), ctx.rng.randrange(9)]
         for sd in seeds:
             for kind in ("recvN", "recvT", "mixed"):
@@ -680,7 +697,9 @@ class C11(Prop):
             ctx.log(f"model counter-example for system `{s}`: {o[:300]}")
             for kind in kinds:
                 for mode in ("stop-first", "task-first"):
-                    case = {"kind": kind, "mode": mode, "k": None, "two": nstop == "2", "pub": 2 if pub == "1" else 0,
+                    # a publisher is started only if the counter-example needs one (a later signal would rescue the task)
+                    needs_pub = any(t == int(nstop) + 1 for (t, _) in schedule)
+                    case = {"kind": kind, "mode": mode, "k": None, "two": nstop == "2", "pub": 2 if needs_pub else 0,
                             "seed": 0, "guide": schedule}
                     obs = run_case(case, guide_schedule=schedule)
                     self._evaluate(ctx, res, [(case, obs)], follow=False)
